@@ -106,7 +106,12 @@ def bad_byte_path_check(case):
     # 0xE3 opens a three-byte sequence: put in front of an ASCII byte it can never be decoded
     pos = next(i for i in range(len(text) - 20, 0, -1) if text[i] < 128)
     data = text[:pos] + b"\xe3" + text[pos:]
-    nlines = data.count(b"\n") + (0 if data.endswith(b"\n") else 1)
+    # the lines the reader will see: a path is opened in text mode with universal newlines, so a lone CR and
+    # CR LF end a line as LF does (a content with carriage returns used to be counted by its LFs only, and the
+    # read was then reported for "more elements than lines": a false alarm of this harness, appendix G)
+    import re as _re
+
+    nlines = len(_re.findall(rb"\r\n|\r|\n", data)) + (0 if data.endswith((b"\n", b"\r")) else 1)
     budget = nlines + 1
     d = tempfile.mkdtemp(prefix="cfi_c18_")
     try:
